@@ -487,6 +487,16 @@ fn stack_layer(rep: &mut Report, args: &Args, rng: &mut Rng) {
       scripts.push(vec![g("G(rev3.0,NULL,srv=0)"), tk("READY"), tk("DATA")]);
       scripts.push(vec![g("G(rev3.0,PLAIN,srv=0)"), tk("HELLO(wrong)"), tk("READY"), tk("DATA")]);
       scripts.push(vec![g("G(rev3.0,PLAIN,srv=0)"), tk("READY"), tk("DATA")]);
+      if m == Mech::Plain {
+        // near-miss credentials against the live listener (the engine-level sweep is the creds layer)
+        let pw = s.pass.as_bytes();
+        let mut ext = pw.to_vec();
+        ext.extend_from_slice(b"-and-more");
+        for (name, p) in [("HELLO(user-ok,pass-empty)", vec![]), ("HELLO(user-ok,pass-prefix)", pw[..pw.len() / 2].to_vec()), ("HELLO(user-ok,pass-extended)", ext)] {
+          let h = Tok { name, bytes: enc(refzmtp::plain_hello(s.user.as_bytes(), &p)) };
+          scripts.push(vec![g("G(rev3.0,PLAIN,srv=0)"), h, tk("READY"), tk("DATA")]);
+        }
+      }
       for _ in 0..n {
         let mut sc = vec![rng.pick(&gs).clone()];
         for _ in 0..rng.range(1, 4) {
@@ -509,6 +519,98 @@ fn stack_layer(rep: &mut Report, args: &Args, rng: &mut Rng) {
   }
 }
 
+/// (creds) the PLAIN server's credential comparison, probed exhaustively around the configured pair: every proper
+/// prefix, extensions, every single-byte change, empty fields, swapped fields. Only the exact pair may be admitted.
+fn cred_variants(user: &[u8], pass: &[u8]) -> Vec<(&'static str, Vec<u8>, Vec<u8>)> {
+  let mut v: Vec<(&'static str, Vec<u8>, Vec<u8>)> = vec![];
+  let near = |x: &[u8], tag: [&'static str; 4]| -> Vec<(&'static str, Vec<u8>)> {
+    let mut o: Vec<(&'static str, Vec<u8>)> = vec![(tag[0], vec![])];
+    for k in 1..x.len() {
+      o.push((tag[1], x[..k].to_vec()));
+    }
+    for ext in [&b"x"[..], &b"\0"[..], x, &b"-and-more"[..]] {
+      let mut e = x.to_vec();
+      e.extend_from_slice(ext);
+      o.push((tag[2], e));
+    }
+    for i in 0..x.len() {
+      for m in [0x01u8, 0x20, 0x80] {
+        let mut f = x.to_vec();
+        f[i] ^= m;
+        o.push((tag[3], f));
+      }
+    }
+    o.retain(|(_, y)| y.as_slice() != x && y.len() <= 255);
+    o
+  };
+  for (c, p) in near(pass, ["pass_empty", "pass_prefix", "pass_extended", "pass_byte_changed"]) {
+    v.push((c, user.to_vec(), p));
+  }
+  for (c, u) in near(user, ["user_empty", "user_prefix", "user_extended", "user_byte_changed"]) {
+    v.push((c, u, pass.to_vec()));
+  }
+  v.push(("both_empty", vec![], vec![]));
+  if user != pass {
+    v.push(("swapped", pass.to_vec(), user.to_vec()));
+  }
+  if user.len() > 1 && pass.len() > 1 {
+    v.push(("both_prefix", user[..user.len() - 1].to_vec(), pass[..pass.len() - 1].to_vec()));
+  }
+  v
+}
+
+fn creds_layer(rep: &mut Report, args: &Args, rng: &mut Rng) {
+  let n = if args.thorough() { 60 } else { 12 };
+  for k in 0..n {
+    if !args.mine(k) {
+      continue;
+    }
+    let mut s = secrets(rng);
+    match k % 4 {
+      0 => {
+        s.user = "admin".into();
+        s.pass = "secret".into();
+      }
+      1 => {
+        s.user = String::from_utf8(rng.bytes_in(1, 1).iter().map(|b| b'a' + b % 26).collect()).unwrap();
+        s.pass = String::from_utf8(rng.bytes_in(1, 2).iter().map(|b| b'a' + b % 26).collect()).unwrap();
+      }
+      2 => {
+        s.user = String::from_utf8(rng.bytes_in(2, 10).iter().map(|b| b'!' + b % 90).collect()).unwrap();
+        s.pass = String::from_utf8(rng.bytes_in(3, 14).iter().map(|b| b'!' + b % 90).collect()).unwrap();
+      }
+      _ => {}
+    }
+    let stype = if k % 2 == 0 { "PULL" } else { "ROUTER" };
+    let pt = peer_type(stype);
+    let cfg = victim_cfg(Mech::Plain, true, None, stype, &s);
+    let g = Tok { name: "G(rev3.0,PLAIN,srv=0)", bytes: refzmtp::greeting_raw(3, 0, b"PLAIN", false) };
+    let ready = Tok { name: "READY", bytes: enc(refzmtp::ready(pt, None)) };
+    let data = Tok { name: "DATA", bytes: enc(Frame::data(b"UNAUTH", false)) };
+    // positive control: the monitor must be able to see an admission
+    let good = Tok { name: "HELLO(exact)", bytes: enc(refzmtp::plain_hello(s.user.as_bytes(), s.pass.as_bytes())) };
+    let ctl = play(&cfg, true, &[&g, &good, &ready, &data], false);
+    if ctl.breached.is_none() {
+      rep.inconclusive(format!("creds: the exact PLAIN credentials were not admitted by the engine (user len {}, pass len {}): admission is not observable", s.user.len(), s.pass.len()));
+      continue;
+    }
+    for (class, u, p) in cred_variants(s.user.as_bytes(), s.pass.as_bytes()) {
+      let hello = Tok { name: "HELLO(variant)", bytes: enc(refzmtp::plain_hello(&u, &p)) };
+      for bytewise in [false, true] {
+        let v = play(&cfg, true, &[&g, &hello, &ready, &data], bytewise);
+        rep.case(&("creds", class, u.len(), p.len(), s.user.len(), s.pass.len(), bytewise, stype), true);
+        if let Some(w) = v.breached {
+          rep.violation(
+            format!("plain_wrong_credentials_admitted|{}", class),
+            format!("PLAIN server configured with user {:?} / password {:?} reported {} for HELLO({:?}, {:?})", s.user, s.pass, w, String::from_utf8_lossy(&u), String::from_utf8_lossy(&p)),
+            json!({"class": class, "configured": [s.user, s.pass], "offered": [hex(&u), hex(&p)], "bytewise": bytewise}),
+          );
+        }
+      }
+    }
+  }
+}
+
 fn main() {
   let args = Args::parse();
   util::install_panic_watch();
@@ -516,6 +618,7 @@ fn main() {
   let mut rng = Rng::new(args.seed.wrapping_mul(104729).wrapping_add(args.shard as u64));
   match args.only.as_deref() {
     Some("stack") => stack_layer(&mut rep, &args, &mut rng),
+    Some("creds") => creds_layer(&mut rep, &args, &mut rng),
     _ => engine_layer(&mut rep, &args, &mut rng),
   }
   // panics inside rzmq while parsing attacker input belong to C07; note them here without verdict
